@@ -43,28 +43,37 @@ WFCose(kind, b) ==
 \* ---------------------------------------------------------------------------
 \* C07: conforming messages within the documented limits
 \* ---------------------------------------------------------------------------
-RECURSIVE LimSig3(_)
-RECURSIVE LimUnprot(_)
-LimProt(x) == x.b = <<>> \/ LET p == ParseAll(x.b) IN
+RECURSIVE LimSig3(_, _)
+RECURSIVE LimUnprot(_, _)
+\* "no tags in the envelope or unprotected values": inside the VALUES of protected parameters tags are within the limits.  Demanded
+\* here only for tag numbers without built-in meaning in the CBOR library (1 with an unsigned integer, 32, 37, 99999), one level.
+\* tagsOK = FALSE gives the tag-free subset (every header value has a lossless representation in the host language).
+PlainTagHere(it) == it.k # "tag" \/ (it.x.k # "tag" /\
+                      (it.a \in {NatToArg(32), NatToArg(37), NatToArg(99999)} \/ (it.a = NatToArg(1) /\ it.x.k = "uint")))
+LimProt(x, tagsOK) == x.b = <<>> \/ LET p == ParseAll(x.b) IN
                  /\ AllNodes(IntsWithinInt64Here, p.item) /\ AllNodes(NoFloatSimpleKeyHere, p.item)
                  /\ AllNodes(NoOddSimpleHere, p.item) /\ AllNodes(TextOKHere, p.item)
-                 /\ AllNodes(NotTag, p.item) /\ AllNodes(NoFloatHere, p.item)
+                 /\ p.item.k = "map" /\ (\A i \in 1..Len(p.item.ps) : AllNodes(NotTag, p.item.ps[i][1]) /\ AllNodes(PlainTagHere, p.item.ps[i][2]))
+                 /\ (tagsOK \/ AllNodes(NotTag, p.item))
+                 /\ AllNodes(NoFloatHere, p.item)
 IsOneSig(v) == IsArr(v) /\ Len(v.xs) = 3 /\ v.xs[1].k = "bstr"
-CsLim(v) == IF IsOneSig(v) THEN LimSig3(v)
-            ELSE Len(v.xs) > 0 /\ \A i \in 1..Len(v.xs) : LimSig3(v.xs[i])
-LimUnprot(x) ==
+CsLim(v, tagsOK) == IF IsOneSig(v) THEN LimSig3(v, tagsOK)
+            ELSE Len(v.xs) > 0 /\ \A i \in 1..Len(v.xs) : LimSig3(v.xs[i], tagsOK)
+LimUnprot(x, tagsOK) ==
   \A i \in 1..Len(x.ps) :
      IF IsUIntN(x.ps[i][1], LblCounterSig) \/ IsUIntN(x.ps[i][1], LblCounterSigV2)
-     THEN CsLim(x.ps[i][2])
+     THEN CsLim(x.ps[i][2], tagsOK)
      ELSE WithinLimitsItem(x.ps[i][1]) /\ WithinLimitsItem(x.ps[i][2])
-LimSig3(v) == LimProt(v.xs[1]) /\ LimUnprot(v.xs[2])
+LimSig3(v, tagsOK) == LimProt(v.xs[1], tagsOK) /\ LimUnprot(v.xs[2], tagsOK)
 
-Conforming(kind, b) ==
+ConformingT(kind, b, tagsOK) ==
   /\ WFCose(kind, b)
   /\ LET it == Body(kind, b).item IN
-     IF kind \in {"sig", "csig"} THEN LimSig3(it)
-     ELSE /\ LimProt(it.xs[1]) /\ LimUnprot(it.xs[2])
-          /\ (kind = "sign" => (\A i \in 1..Len(it.xs[4].xs) : LimSig3(it.xs[4].xs[i])))
+     IF kind \in {"sig", "csig"} THEN LimSig3(it, tagsOK)
+     ELSE /\ LimProt(it.xs[1], tagsOK) /\ LimUnprot(it.xs[2], tagsOK)
+          /\ (kind = "sign" => (\A i \in 1..Len(it.xs[4].xs) : LimSig3(it.xs[4].xs[i], tagsOK)))
+Conforming(kind, b) == ConformingT(kind, b, TRUE)
+ConformingTagFree(kind, b) == ConformingT(kind, b, FALSE)
 
 \* ---------------------------------------------------------------------------
 \* Sig_structure (RFC 9052 4.4) and Countersign_structure (RFC 9338 3.3)
